@@ -561,11 +561,8 @@ def restore_case(draw):
                 sblock=draw(st.booleans()))
 
 
-def restore_oracle(case, stats=None):
-    """cpl/cp save the iterate and its scaling before relaxed line searches and go back to them when a step fails.
-    The scaling handed to the KKT solver belongs to the iterate: when the first kktsolver call after a failure receives
-    bit-identical (x, z) as an earlier call of the same solve (the saved iterate), it must receive the same W.
-    A failure (ArithmeticError) is injected into every kktsolver call in turn to provoke the restore path."""
+def restore_problem(case):
+    """-> dict with the cvxopt data and callback of a restore_case (also used by C10's 'restore' part)."""
     from cvxopt import exp as cexp
     n, m, K = case["n"], case["m"], case["K"]
     Aa = np.array(case["A"], dtype=float).reshape((m, n))
@@ -612,6 +609,18 @@ def restore_oracle(case, stats=None):
             return f, Df
         return f, Df, z[0] * matrix(Hc)
 
+    return dict(F=F, cm=cm, Gm=Gm, hm=hm, dims=dims, cp_form=cp_form, n=n, m=m, K=K, Aa=Aa, rhs=rhs, c=c, G=G, h=h)
+
+
+def restore_oracle(case, stats=None):
+    """cpl/cp save the iterate and its scaling before relaxed line searches and go back to them when a step fails.
+    The scaling handed to the KKT solver belongs to the iterate: when the first kktsolver call after a failure receives
+    bit-identical (x, z) as an earlier call of the same solve (the saved iterate), it must receive the same W, and the
+    first system it solves (the affine-scaling direction, a function of the iterate alone) must have the same
+    right-hand side.  A failure (ArithmeticError) is injected into every kktsolver call in turn to provoke the restore path."""
+    pr = restore_problem(case)
+    F, cm, Gm, hm, dims, cp_form, n = pr["F"], pr["cm"], pr["Gm"], pr["hm"], pr["dims"], pr["cp_form"], pr["n"]
+
     def run(fail_at):
         rec = []
         factor = misc.kkt_ldl(Gm, dims, matrix(0.0, (0, n)), 0 if cp_form else 1)
@@ -621,10 +630,17 @@ def restore_oracle(case, stats=None):
             Wn = rc.W_from_cvxopt(W)
             flat = np.concatenate([np.ravel(np.asarray(v, dtype=float)) for kk in sorted(Wn)
                                    for v in (Wn[kk] if isinstance(Wn[kk], list) else [Wn[kk]])]) if Wn else np.zeros(0)
-            rec.append((repr(list(x)), repr(list(z)), flat))
+            entry = [repr(list(x)), repr(list(z)), flat, None]
+            rec.append(entry)
             if len(rec) - 1 == fail_at:
                 raise ArithmeticError("injected")
-            return factor(W, H, Df) if not cp_form else factor(W, H)
+            f3 = factor(W, H, Df) if not cp_form else factor(W, H)
+
+            def solve(bx, by, bz):
+                if entry[3] is None:
+                    entry[3] = np.concatenate([np.array(list(bx)), np.array(list(by)), np.array(list(bz))])
+                return f3(bx, by, bz)
+            return solve
         try:
             if cp_form:
                 solvers.cp(F, Gm, hm, dims, kktsolver=kktsolver, options={"show_progress": False})
@@ -639,7 +655,7 @@ def restore_oracle(case, stats=None):
         rec = run(k)
         if len(rec) <= k + 1:
             continue
-        xk, zk, Wk = rec[k + 1]
+        xk, zk, Wk, rhsk = rec[k + 1]
         for j in range(k + 1):
             if rec[j][0] == xk and rec[j][1] == zk:
                 restores += 1
@@ -649,6 +665,14 @@ def restore_oracle(case, stats=None):
                     raise Violation("%s, ArithmeticError injected into kktsolver call #%d: the retry starts from the iterate of call #%d "
                                     "(identical x, z) but receives a scaling W that differs from the one of that call (relative %.2e): "
                                     "W is not the scaling of the current iterate" % (case["form"], k, j, dev))
+                r0 = rec[j][3]
+                if r0 is not None and rhsk is not None and r0.shape == rhsk.shape:
+                    dev = float(np.max(np.abs(r0 - rhsk)) / max(1.0, float(np.max(np.abs(r0)))))
+                    if dev > 1e-9:
+                        raise Violation("%s, ArithmeticError injected into kktsolver call #%d: the retry starts from the iterate of call "
+                                        "#%d (identical x, z, W) but the first KKT system it solves (the affine-scaling direction, which "
+                                        "depends on the iterate only) has a different right-hand side (relative %.2e): part of the "
+                                        "saved state was not restored" % (case["form"], k, j, dev))
                 break
     if stats is not None:
         stats.evaluated(case, restores > 0, ["restore", "restores:%d" % min(restores, 5), "form:" + case["form"]])
